@@ -3,6 +3,8 @@ package main
 import (
 	"bytes"
 	"fmt"
+	"go/ast"
+	"go/constant"
 	"go/types"
 	"os"
 	"regexp"
@@ -106,7 +108,7 @@ func concreteInts(st *symState, v SV) ([]int64, bool) {
 }
 
 func msgScenario(c *Ctx, mm msgMatcher, mc msgCase) *Scenario {
-	sc := &Scenario{Name: mm.cfgName + "," + mc.name, MaxVisit: 70, MaxPaths: 4000,
+	sc := &Scenario{Name: mm.cfgName + "," + mc.name, MaxVisit: 400, MaxPaths: 4000, ConcreteCopy: true,
 		Params: map[string]SV{"recv": symRef("m", false), "p0": symRef("cx", false)},
 		Heap:   map[string]SV{"msg.pos": symInt(0)},
 	}
@@ -131,6 +133,11 @@ func msgScenario(c *Ctx, mm msgMatcher, mc msgCase) *Scenario {
 			} else if s, ok := varInitString(c, pk, name).(string); ok {
 				l := symInt(int64(len(s)))
 				sc.Heap[key] = SV{K: "str", Known: true, S: s, Len: &l, Desc: fmt.Sprintf("%q", s)}
+			} else if varInitIsNewError(c, pk, name) {
+				sc.Heap[key] = SV{K: "ref", Known: true, Desc: key} // errors.New(...): a non-nil sentinel
+			} else if pat, ok := varInitRegexp(c, pk, name); ok {
+				sc.Heap[key] = symRef(key, false)
+				sc.Heap["regexp:"+key] = symStr(pat)
 			} else if e, info := findVarInit(c, pk, name); e != nil {
 				if tv, ok := info.Types[e]; ok && tv.Value != nil {
 					if _, isInt := tv.Type.Underlying().(*types.Basic); isInt {
@@ -156,8 +163,10 @@ func msgScenario(c *Ctx, mm msgMatcher, mc msgCase) *Scenario {
 		if avail < want {
 			n = avail
 		}
+		base, off := sliceBase(buf.Desc)
 		for i := int64(0); i < n; i++ {
 			st.heap[fmt.Sprintf("%s[%d]", buf.Desc, i)] = symInt(int64(msg[pos+i]))
+			st.heap[fmt.Sprintf("%s[%d]", base, off+i)] = symInt(int64(msg[pos+i])) // the object the destination was cut from
 		}
 		st.heap["msg.pos"] = symInt(pos + n)
 		if n < atLeast {
@@ -294,6 +303,31 @@ func msgScenario(c *Ctx, mm msgMatcher, mc msgCase) *Scenario {
 			if ok1 && ok2 {
 				return symBool(bytes.Contains(a, b)), true
 			}
+		case callee == "strings.HasSuffix" && len(args) == 2:
+			a, ok1 := concreteBytes(st, args[0])
+			b, ok2 := concreteBytes(st, args[1])
+			if ok1 && ok2 {
+				return symBool(bytes.HasSuffix(a, b)), true
+			}
+		case callee == "(*regexp.Regexp).MatchString" && len(args) == 2:
+			// a regular expression compiled from a constant of the program (or given by the scenario) applied to a
+			// known string is computed
+			if os.Getenv("L4DEBUG") == "tbl" {
+				_, has := st.heap["regexp:"+args[0].Desc]
+				sb, okb := concreteBytes(st, args[1])
+				fmt.Println("DBGRE", args[0].Desc, has, args[1].K, args[1].Desc, string(sb), okb)
+			}
+			if pat, ok := st.heap["regexp:"+args[0].Desc]; ok && pat.K == "str" && pat.Known {
+				if subj, ok := concreteBytes(st, args[1]); ok {
+					if re, err := regexp.Compile(pat.S); err == nil {
+						return symBool(re.Match(subj)), true
+					}
+				}
+			}
+		case strings.HasSuffix(callee, "Replacer).ReplaceAll") && len(args) == 3:
+			return args[1], true // no placeholders in the configured values of the tables
+		case strings.Contains(callee, "context.Context.Value"), strings.HasSuffix(callee, "Replacer).Set"):
+			return symRef("repl", false), true
 		case (callee == "strings.HasPrefix") && len(args) == 2:
 			a, ok1 := concreteBytes(st, args[0])
 			b, ok2 := concreteBytes(st, args[1])
@@ -366,6 +400,89 @@ func wgMsg(n int, typ byte, reserved byte) []byte {
 	return b
 }
 
+// varInitRegexp: the pattern of a package variable initialised with regexp.MustCompile(<constant>).
+func varInitRegexp(c *Ctx, pkgShort, name string) (string, bool) {
+	e, info := findVarInit(c, pkgShort, name)
+	call, ok := e.(*ast.CallExpr)
+	if !ok || len(call.Args) != 1 {
+		return "", false
+	}
+	if se, ok := call.Fun.(*ast.SelectorExpr); !ok || se.Sel.Name != "MustCompile" {
+		return "", false
+	}
+	if tv, ok := info.Types[call.Args[0]]; ok && tv.Value != nil && tv.Value.Kind() == constant.String {
+		return constant.StringVal(tv.Value), true
+	}
+	return "", false
+}
+
+// varInitIsNewError: a package variable initialised with errors.New / fmt.Errorf.
+func varInitIsNewError(c *Ctx, pkgShort, name string) bool {
+	e, _ := findVarInit(c, pkgShort, name)
+	call, ok := e.(*ast.CallExpr)
+	if !ok {
+		return false
+	}
+	se, ok := call.Fun.(*ast.SelectorExpr)
+	if !ok {
+		return false
+	}
+	pk, _ := se.X.(*ast.Ident)
+	return pk != nil && (pk.Name == "errors" && se.Sel.Name == "New" || pk.Name == "fmt" && se.Sel.Name == "Errorf")
+}
+
+func winboxMsg(user string, keyLen int, parity byte, typ byte, extra int) []byte {
+	payload := append([]byte(user), 0)
+	for i := 0; i < keyLen; i++ {
+		payload = append(payload, byte(0x40+i))
+	}
+	payload = append(payload, parity)
+	out := append([]byte{byte(len(payload)), typ}, payload...)
+	for i := 0; i < extra; i++ {
+		out = append(out, 0x55)
+	}
+	return out
+}
+
+// winboxLong: an auth message whose payload is split into chunks of at most 255 bytes.
+func winboxLong(userLen int, keyZeroAt int) []byte {
+	var payload []byte
+	for i := 0; i < userLen; i++ {
+		payload = append(payload, byte('a'+i%26))
+	}
+	payload = append(payload, 0)
+	for i := 0; i < 32; i++ {
+		b := byte(0x40 + i)
+		if i == keyZeroAt {
+			b = 0
+		}
+		payload = append(payload, b)
+	}
+	payload = append(payload, 1)
+	var out []byte
+	typ := byte(6)
+	for len(payload) > 0 {
+		k := len(payload)
+		if k > 255 {
+			k = 255
+		}
+		out = append(out, byte(k), typ)
+		out = append(out, payload[:k]...)
+		payload = payload[k:]
+		typ = 0xff
+	}
+	return out
+}
+
+func winboxCfg(std, romon bool, user, re string) func(h map[string]SV) {
+	return func(h map[string]SV) {
+		h["m.acceptStandard"], h["m.acceptRoMON"] = symBool(std), symBool(romon)
+		h["m.Username"], h["m.UsernameRegexp"] = symStr(user), symStr(re)
+		h["m.usernameRegexp"] = symRef("m.usernameRegexp", false)
+		h["regexp:m.usernameRegexp"] = symStr(re)
+	}
+}
+
 func pgMsg(code uint32, body []byte) []byte {
 	l := uint32(8 + len(body))
 	out := []byte{byte(l >> 24), byte(l >> 16), byte(l >> 8), byte(l), byte(code >> 24), byte(code >> 16), byte(code >> 8), byte(code)}
@@ -373,6 +490,90 @@ func pgMsg(code uint32, body []byte) []byte {
 }
 
 var msgMatchers = []msgMatcher{
+	{
+		fn: "modules/l4winbox.(*MatchWinbox).Match", cfgName: "winbox any mode", heap: winboxCfg(true, true, "", ""),
+		cases: []msgCase{
+			{"auth of admin", winboxMsg("admin", 32, 1, 6, 0), "yes"},
+			{"auth of admin, parity 0", winboxMsg("admin", 32, 0, 6, 0), "yes"},
+			{"auth of a one-letter user", winboxMsg("a", 32, 1, 6, 0), "yes"},
+			{"RoMON auth (user+r)", winboxMsg("admin+r", 32, 1, 6, 0), "yes"},
+			{"user with dots and dashes", winboxMsg("a.b-c_d@e#1", 32, 0, 6, 0), "yes"},
+			{"key containing a zero byte", winboxLong(5, 7), "yes"},
+			{"key starting with a zero byte", winboxLong(5, 0), "yes"},
+			{"user name of 221 bytes (one full chunk)", winboxLong(221, -1), "yes"},
+			{"user name of 230 bytes (two chunks)", winboxLong(230, -1), "yes"},
+			{"user name of 255 bytes (largest message)", winboxLong(255, -1), "yes"},
+			{"user name of 256 bytes", winboxLong(256, -1), "no"},
+			{"two chunks, the second of type auth", func() []byte { b := winboxLong(230, -1); b[257+1] = 6; return b }(), "no"},
+			{"no delimiter", func() []byte { b := winboxMsg("admin", 32, 1, 6, 0); b[2+5] = 0x2e; return b }(), "no"},
+			{"parity 2", winboxMsg("admin", 32, 2, 6, 0), "no"},
+			{"31 key bytes", winboxMsg("admin", 31, 1, 6, 0), "no"},
+			{"33 key bytes", winboxMsg("admin", 33, 1, 6, 0), "no"},
+			{"chunk type 5", winboxMsg("admin", 32, 1, 5, 0), "no"},
+			{"chunk type 0xff", winboxMsg("admin", 32, 1, 0xff, 0), "no"},
+			{"empty user name", winboxMsg("", 32, 1, 6, 0), "no"},
+			{"user name with a space", winboxMsg("ad min", 32, 1, 6, 0), "no"},
+			{"user name ending with a dash", winboxMsg("admin-", 32, 1, 6, 0), "no"},
+			{"one byte after the message", winboxMsg("admin", 32, 1, 6, 1), "no"},
+			{"header only", winboxMsg("admin", 32, 1, 6, 0)[:2], "more"},
+			{"message cut in the key", winboxMsg("admin", 32, 1, 6, 0)[:20], "more"},
+			{"one byte", []byte{39}, "more"},
+			{"empty", []byte{}, "more"},
+			{"http", []byte("GET / HTTP/1.1\r\nHost: example.com\r\nAccept: */*\r\n\r\n"), "no"},
+		},
+		source: "Winbox (MikroTik) login: one chunk [length, type 0x06] holding user name, 0x00, 32 public key bytes, parity 0/1; the user name matches ^[0-9A-Za-z](?:[-#.0-9@A-Z_a-z]+[0-9A-Za-z])?$ after removing the RoMON suffix '+r'",
+	},
+	{
+		fn: "modules/l4winbox.(*MatchWinbox).Match", cfgName: "winbox standard only", heap: winboxCfg(true, false, "", ""),
+		cases: []msgCase{
+			{"auth of admin", winboxMsg("admin", 32, 1, 6, 0), "yes"},
+			{"RoMON auth", winboxMsg("admin+r", 32, 1, 6, 0), "no"},
+		},
+		source: "modes filter: standard only",
+	},
+	{
+		fn: "modules/l4winbox.(*MatchWinbox).Match", cfgName: "winbox romon only", heap: winboxCfg(false, true, "", ""),
+		cases: []msgCase{
+			{"auth of admin", winboxMsg("admin", 32, 1, 6, 0), "no"},
+			{"RoMON auth", winboxMsg("admin+r", 32, 1, 6, 0), "yes"},
+		},
+		source: "modes filter: romon only",
+	},
+	{
+		fn: "modules/l4winbox.(*MatchWinbox).Match", cfgName: "winbox username=admin", heap: winboxCfg(true, true, "admin", "^ro"),
+		cases: []msgCase{
+			{"auth of admin", winboxMsg("admin", 32, 1, 6, 0), "yes"},
+			{"RoMON auth of admin", winboxMsg("admin+r", 32, 1, 6, 0), "yes"},
+			{"auth of root (the regexp is ignored when a name is given)", winboxMsg("root", 32, 1, 6, 0), "no"},
+			{"auth of admin2", winboxMsg("admin2", 32, 1, 6, 0), "no"},
+		},
+		source: "username filter: the name without the RoMON suffix equals the configured one",
+	},
+	{
+		fn: "modules/l4winbox.(*MatchWinbox).Match", cfgName: "winbox username=a", heap: winboxCfg(true, true, "a", ""),
+		cases: []msgCase{
+			{"auth of a", winboxMsg("a", 32, 1, 6, 0), "yes"},
+			{"auth of b", winboxMsg("b", 32, 1, 6, 0), "no"},
+		},
+		source: "username filter with a one-letter name",
+	},
+	{
+		fn: "modules/l4winbox.(*MatchWinbox).Match", cfgName: "winbox username_regexp=x", heap: winboxCfg(true, true, "", "x"),
+		cases: []msgCase{
+			{"auth of admin", winboxMsg("admin", 32, 1, 6, 0), "no"},
+			{"auth of max", winboxMsg("max", 32, 1, 6, 0), "yes"},
+		},
+		source: "username_regexp filter with a one-letter expression",
+	},
+	{
+		fn: "modules/l4winbox.(*MatchWinbox).Match", cfgName: "winbox username_regexp=^adm", heap: winboxCfg(true, true, "", "^adm"),
+		cases: []msgCase{
+			{"auth of admin", winboxMsg("admin", 32, 1, 6, 0), "yes"},
+			{"auth of root", winboxMsg("root", 32, 1, 6, 0), "no"},
+			{"RoMON auth of root", winboxMsg("root+r", 32, 1, 6, 0), "no"},
+		},
+		source: "username_regexp filter on the name without the RoMON suffix",
+	},
 	{
 		fn: "modules/l4postgres.(*MatchPostgres).Match", cfgName: "postgres",
 		cases: []msgCase{
